@@ -1,18 +1,119 @@
-"""C04: reorderings respect dependencies (CrossHair on the real graph plumbing of program_utils and GBS.compile)"""
+"""C04: reorderings respect dependencies.
+
+Engine X: CrossHair on the real graph plumbing of program_utils and GBS.compile (xh/c04_reorder.py).
+Engine P: the same obligations with the command shapes as symbolic choice variables explored by the path explorer
+(every shape of every command is a solver-checked branch); this reaches three and four commands, readers of measured
+values included, in seconds."""
+import itertools
+
 from . import xhrun
 
 
+def mods():
+    import strawberryfields.program_utils as pu
+    return [pu]
+
+
+class Op:
+    ns = 1
+
+    def __init__(self, marked=False, deps=()):
+        self.marked = marked
+        self.measurement_deps = set(deps)
+
+    def __str__(self):
+        return "Op(marked=%s, deps=%s)" % (self.marked, sorted(r.ind for r in self.measurement_deps))
+
+
+def pick(g, name, k):
+    """symbolic choice in range(k): one real variable cut into k intervals (each cut forks the explorer)"""
+    v = g.real(name, lo=0, hi=k)
+    for i in range(k - 1):
+        if v < i + 1:
+            return i
+    return k - 1
+
+
+def wires(c):
+    return set(r.ind for r in c.reg) | set(r.ind for r in c.op.measurement_deps)
+
+
+def order_violation(seq, out):
+    if len(out) != len(seq) or sorted(map(id, out)) != sorted(map(id, seq)):
+        return "not a permutation of the input commands"
+    pos = {id(c): i for i, c in enumerate(out)}
+    for i in range(len(seq)):
+        for j in range(i + 1, len(seq)):
+            if wires(seq[i]) & wires(seq[j]) and pos[id(seq[i])] > pos[id(seq[j])]:
+                return "command %d moved after dependent command %d" % (i, j)
+    return ""
+
+
+def h_reorder(g, L, nm, first, marks):
+    """first: concrete shape (a, b, dep) of command 0 (splits the space into parallel jobs); the other commands are
+    symbolic.  marks: whether group_operations' predicate bit is symbolic too"""
+    import networkx as nx
+    import strawberryfields.program_utils as pu
+    from strawberryfields.program_utils import Command, RegRef
+    regs = [RegRef(i) for i in range(nm)]
+    seq = []
+    desc = []
+    for k in range(L):
+        if k == 0 and first is not None:
+            a, b, d = first
+        else:
+            a, b, d = pick(g, "a%d" % k, nm), pick(g, "b%d" % k, nm), pick(g, "d%d" % k, nm + 1) - 1
+        m = bool(pick(g, "m%d" % k, 2)) if marks else False
+        deps = [regs[d]] if d >= 0 else []
+        seq.append(Command(Op(m, deps), [regs[a]] if a == b else [regs[a], regs[b]]))
+        desc.append((a, b, d, m))
+    detail = repr(desc)
+    # grid: every wire lists exactly the commands that touch or read it, in program order
+    grid = pu.list_to_grid(seq)
+    ok = all(k in grid for c in seq for k in wires(c))
+    for k, q in grid.items():
+        ok = ok and [id(c) for c in q] == [id(c) for c in seq if k in wires(c)]
+    g.fact("list_to_grid: each wire lists its commands (targets and measured-value readers) in order", ok, detail=detail)
+    # DAG: orders every dependent pair, never against the program order
+    dag = pu.list_to_DAG(seq)
+    pos = {id(c): i for i, c in enumerate(seq)}
+    ok = sorted(map(id, dag.nodes)) == sorted(map(id, seq)) and all(pos[id(u)] < pos[id(v)] for u, v in dag.edges)
+    missing = [(i, j) for i in range(L) for j in range(i + 1, L)
+               if wires(seq[i]) & wires(seq[j]) and not nx.has_path(dag, seq[i], seq[j])]
+    g.fact("list_to_DAG: a path between every dependent pair, no edge against program order", ok and not missing,
+           detail="%s missing=%s" % (detail, missing))
+    g.fact("DAG_to_list(list_to_DAG) respects dependencies", order_violation(seq, pu.DAG_to_list(dag)) == "",
+           detail="%s: %s" % (detail, order_violation(seq, pu.DAG_to_list(dag))))
+    A, B, C_ = pu.group_operations(seq, lambda op: op.marked)
+    out = list(A) + list(B) + list(C_)
+    g.fact("group_operations respects dependencies", order_violation(seq, out) == "",
+           detail="%s: %s" % (detail, order_violation(seq, out)))
+    g.fact("group_operations: marked commands only in B; C empty when B is",
+           not any(c.op.marked for c in A) and not any(c.op.marked for c in C_) and (bool(B) or not C_), detail=detail)
+
+
 def build(ctx):
-    ctx.outside += ["sequences longer than the bounds below (CrossHair's cost grows about tenfold per command)",
-                    "gaussian_merge's DAG surgery (C11)", "optimize_circuit's regrouping (exercised semantically in C03)"]
+    ctx.outside += ["sequences longer than the bounds below", "gaussian_merge's DAG surgery (C11)",
+                    "optimize_circuit's regrouping (exercised semantically in C03)"]
+    fns = ["program_utils.list_to_grid", "program_utils.grid_to_DAG", "program_utils.list_to_DAG", "program_utils.DAG_to_list",
+           "program_utils.group_operations"]
+    cases = [(3, 2, True), (3, 3, False)] if not ctx.thorough else [(3, 3, True), (4, 2, True)]
+    for L, nm, marks in cases:
+        for first in itertools.product(range(nm), range(nm), range(-1, nm)):
+            ctx.add("reorder.L%d.modes%d.first%s" % (L, nm, "".join(str(x) for x in first)), h_reorder,
+                    {"L": L, "nm": nm, "first": list(first), "marks": marks}, modules=mods, functions=fns,
+                    bounds={"commands": L, "modes": nm, "shapes": "one- and two-mode targets, optional measured-value dependency on any mode",
+                            "predicate bits": "symbolic" if marks else "all False"}, max_paths=200000, validate_points=0)
 
 
 def xh(ctx):
     if ctx.thorough:
         checks = ["check_roundtrip_L2", "check_roundtrip_L3", "check_roundtrip_deps_L2", "check_roundtrip_deps_L3",
-                  "check_group_L2", "check_group_L3", "check_grid_L2", "check_grid_L3", "check_gbs_L2", "check_gbs_L3"]
+                  "check_group_L2", "check_group_L3", "check_grid_L2", "check_grid_L3", "check_gbs_L2", "check_gbs_L3",
+                  "check_dag_deps_L2", "check_dag_deps_L3"]
         tmo = 3000
     else:
-        checks = ["check_roundtrip_L2", "check_roundtrip_deps_L2", "check_group_L2", "check_grid_L2", "check_gbs_L2"]
+        checks = ["check_roundtrip_L2", "check_roundtrip_deps_L2", "check_group_L2", "check_grid_L2", "check_gbs_L2",
+                  "check_dag_deps_L2"]
         tmo = 400
-    return [xhrun.run("xh/c04_reorder.py", checks, ["twin_roundtrip", "twin_group", "twin_grid", "twin_gbs"], tmo, ctx.prop)]
+    return [xhrun.run("xh/c04_reorder.py", checks, ["twin_roundtrip", "twin_group", "twin_grid", "twin_gbs", "twin_dag"], tmo, ctx.prop)]
